@@ -34,6 +34,8 @@ func C04(c *Ctx) {
 	r.Rule("C04-i", "write primitives: writef/writeln write their text to b.w exactly when no earlier write failed and keep the error; writelnf forwards to writef")
 	r.Rule("C04-j", "code writers: nil → nothing; a node with a pending method (FuncIx != 0) gets writeFunc(FuncIx, Code, templates) and FuncIx cleared; writeInit writes a present initializer; rule passes skip exactly nil/unnamed rules; writeFunc lists every label of the innermost scope in both the signature and the call stub")
 	r.Rule("C04-k", "writeExprCode, per kind: every Expression child is visited, the code writer of a code kind is called, a label is registered in the enclosing scope before the operand's scope opens - all unconditionally")
+	r.Rule("C04-l", "the emitted file is exactly what was written: every place of package main that opens a file for writing uses os.Create, or os.OpenFile with os.O_TRUNC and without os.O_APPEND (a file overwritten in place keeps the tail of a longer previous output, which is not Go)")
+	c04OutputTruncated(c)
 	r.Rule("C04-e", "builder.writeStaticCode feeds the template exactly the five parameters the template references, each wired to the expected builder field, and strips directive comments with the regular expressions the checker reuses")
 
 	src, sk := c.Src(), c.Skel()
@@ -855,4 +857,53 @@ func constText(p *packages.Package, e ast.Expr) string {
 		return tv.Value.ExactString()
 	}
 	return nospace(e)
+}
+
+// c04OutputTruncated (C04-l): the emitted file is exactly what the builder wrote. A file opened for writing without
+// truncation keeps the tail of a longer previous version behind the new parser (a second run with other flags, a rule
+// removed), which is not Go. Every place of package main that opens a file for writing therefore uses os.Create, or
+// os.OpenFile with os.O_TRUNC (and without os.O_APPEND) among its flags.
+func c04OutputTruncated(c *Ctx) {
+	r := c.R
+	g := c.G()
+	if g == nil {
+		return
+	}
+	root := g.Pkg("")
+	nCreate := 0
+	var bad []string
+	for _, fd := range load.AllFuncDecls(root) {
+		if fd.Body == nil {
+			continue
+		}
+		fn := g.Fset.Position(fd.Pos()).Filename
+		if strings.HasSuffix(fn, "_test.go") || strings.HasSuffix(fn, "/pigeon.go") {
+			continue
+		}
+		for _, ce := range callsIn(fd.Body) {
+			switch callName(ce) {
+			case "os.Create":
+				nCreate++
+			case "os.OpenFile":
+				if len(ce.Args) < 2 {
+					continue
+				}
+				flags := nospace(ce.Args[1])
+				writes := strings.Contains(flags, "O_WRONLY") || strings.Contains(flags, "O_RDWR") || strings.Contains(flags, "O_APPEND") || strings.Contains(flags, "O_CREATE")
+				if tv, ok := root.TypesInfo.Types[ce.Args[1]]; ok && tv.Value != nil && !writes {
+					// a constant the checker cannot read by name: undecided rather than assumed
+					bad = append(bad, g.Where(ce.Pos())+": os.OpenFile with flags "+flags+" (cannot tell whether the file is truncated)")
+					continue
+				}
+				if !writes {
+					continue
+				}
+				nCreate++
+				if !strings.Contains(flags, "O_TRUNC") || strings.Contains(flags, "O_APPEND") {
+					bad = append(bad, g.Where(ce.Pos())+": "+fd.Name.Name+" opens a file for writing with "+flags+", which does not truncate it: a longer previous output keeps its tail behind the new parser")
+				}
+			}
+		}
+	}
+	r.Check(len(bad) == 0 && nCreate >= 1, "C04-l", "G.main:output-file-truncated", "", "main.go", fmt.Sprintf("%d places open a file for writing, each truncating it", nCreate), fmt.Sprintf("%d places open a file for writing; %s", nCreate, strings.Join(bad, "; ")))
 }
